@@ -432,7 +432,24 @@ class C05(PropertyCheck):
             if f:
                 yield w, d
 
+    def _family_witnesses(self):
+        """same-name pairs of the families that do NOT commute with themselves (the class of the known finding on a tree
+        without the repair; ordinary circuits on a repaired tree)"""
+        pairs = [[("QASMU", [0], []), ("QASMU", [0], [])], [("R", [0], []), ("R", [0], [])],
+                 [("MS", [0, 1], []), ("MS", [0, 1], [])], [("RZX", [0, 1], []), ("RZX", [1, 0], [])],
+                 [("FREDKIN", [1, 2], [0]), ("FREDKIN", [2, 3], [0])],
+                 [("X", [1], []), ("MS", [0, 1], []), ("MS", [1, 0], []), ("X", [0], [])]]
+        for seq in pairs:
+            N = 1 + max(q for g in seq for q in g[1] + g[2])
+            for m in ("ASAP", "ALAP"):
+                yield {"N": N, "gates": specs_from(seq), "method": m, "perm": True, "shuf": None, "repeat": 0,
+                       "scope": "covered"}
+
     def oracle_always(self, ctx):
+        for w in self._family_witnesses():
+            f, d = self.oracle_replay(ctx, w)
+            if f:
+                yield w, d
         # restricted to the class the theorems cover: scope "covered" skips the unitary clause exactly for circuits
         # containing a pair of the known finding's class (sc.known_class_pair); see notes/C05.md
         for _ in range(250):
